@@ -2,17 +2,10 @@
 VARIANT = "san"
 RULE = "see stats"
 PARTIAL = [
-    "universal optimality (t1d_optimal_full_statement) is the only clause not proved for all inputs.  Proved for all inputs: "
-    "with total supply = total demand (the output of balanceDemand whenever supply exceeded demand) solve returns a plan of "
-    "minimum cost (t1d_optimal_balanced: explicit Kantorovich potential passes certOk); with slack (demand > supply) "
-    "t1d_optimal_partial proves that solve returns a valid plan which is of minimum cost whenever it passes the verified "
-    "certificate (cert_optimal_1d, FULL: weak duality + complementary slackness) - that potentials exist for every input with "
-    "slack (the correctness of the event sweep as an optimiser of the positions) is not proved.  Instead the driver evaluates "
-    "the same certOk on the model's plan for every `cert` op (all cases up to 6x6 and every 4th larger one; potentials from an "
-    "untrusted Bellman-Ford) and the harness compares the real plan's cost with an independent exact optimum (non-crossing "
-    "DP over unit supplies/slots)",
     "solver.check()/checkSolutionValid()/checkSolutionOptimal() inside solve() are not modelled: any throw on a valid "
-    "instance is an oracle failure and a correspondence mismatch (F11 lived there and is covered by UBSan on every case)",
+    "instance is an oracle failure and a correspondence mismatch (F11 lived there and is covered by UBSan on every case). "
+    "Every clause of the property is proved for all inputs of the domain on the model (universal optimality included: "
+    "t1d_optimal, since this round also with slack)",
 ]
 ASSUMPTIONS = [
     "C++ long long/int arithmetic modelled as unbounded Int (positions up to 1e8 and quantities up to 3e12 are exercised under UBSan)",
@@ -24,13 +17,19 @@ ASSUMPTIONS = [
 LEVEL_TEXT = ("Lean 4 theorems over an executable, bounds-checked model of Transportation1d/Sorter/Solver, all for every input of the "
               "domain (zeros included, after the repair of F10): solve() never errors and returns a valid plan (t1d_valid: sweep "
               "invariants, termination of the while loop of push within the model's fuel, interval geometry, two-pointer merge of "
-              "computeSolution, sorter index maps); assign() never errors, one positive-demand sink per source (t1d_assign_safe); "
-              "a source the plan does not split is assigned exactly the plan's sink (t1d_unsplit_kept); balanceDemand; and a verified "
-              "optimality certificate (weak duality), instantiated for every input with supply = demand (t1d_optimal_balanced) and evaluated "
-              "per instance otherwise - universal optimality with slack is the one clause left partial; "
-              "the model is tied to the C++ by an exhaustive small-bound + random (positions to 1e8) differential stream under "
-              "ASan/UBSan; validity, optimality (independent exact optimum) and the rounding clauses are additionally evaluated by a "
-              "direct oracle on every generated instance")
+              "computeSolution, sorter index maps) of minimum cost among all valid plans (t1d_optimal, universal: with slack by a "
+              "correctness proof of the slope-events sweep - the event queue encodes the marginal cost of pushing the last run of "
+              "touching sources to the left, every pushToNewSink/pushToLastSink decision keeps all one-sided marginal costs "
+              "non-negative, so the flushed positions satisfy the optimality conditions of the position problem (t1d_positions_kkt), "
+              "which yield sink prices forming a dual certificate (t1d_kkt_dual, Monge property + quasi-convexity of |u-v|), carried "
+              "back through the sorter to the verified certificate certOk (cert_optimal_1d, weak duality); with exact balance by an "
+              "explicit Kantorovich potential, t1d_optimal_balanced); assign() never errors, one positive-demand sink per source "
+              "(t1d_assign_safe); a source the plan does not split is assigned exactly the plan's sink (t1d_unsplit_kept); "
+              "balanceDemand; the model is tied to the C++ by an exhaustive small-bound + random (positions to 1e8) differential "
+              "stream under ASan/UBSan; per instance the driver additionally evaluates certOk (untrusted Bellman-Ford potentials) on "
+              "`cert` ops and the verified interval certificate ivCertOk of the sweep's positions (closed-formula prices) on every "
+              "case; validity, optimality (independent exact optimum) and the rounding clauses are evaluated by a direct oracle on "
+              "every generated instance")
 LEVEL_NOTE = ("Trusted: Lean kernel (axioms propext/Classical.choice/Quot.sound only), the hand-written model's tie to the code "
               "(differential, bounded by the generator), unbounded Int for long long, list models of priority_queue/sort/bounds.")
-TECHNIQUE = "Lean 4 proof (sweep invariants + termination measure, interval merge, permutation index maps, LP weak duality, Kantorovich potential for the balanced case) + model/implementation correspondence stream + per-instance optimality certificate"
+TECHNIQUE = "Lean 4 proof (sweep invariants + termination measure, correctness of the slope-events sweep as an optimiser: event queue = marginal cost, KKT conditions of the position problem, dual prices via Monge/quasi-convexity, LP weak duality, Kantorovich potential for the balanced case, interval merge, permutation index maps) + model/implementation correspondence stream + per-instance optimality certificates"
